@@ -206,7 +206,13 @@ func (w *world) runSampled() string {
 		i := live[src.Weighted(weights)]
 		s := w.sources[i]
 		c := cur[i]
-		p := src.Weighted([]int{62, 4, 4, 4, 3, 4, 3, 2, 2, 3, 3, 3, 2, 1})
+		pw := []int{62, 4, 4, 4, 3, 4, 3, 2, 2, 3, 3, 3, 2, 1}
+		if w.slow {
+			// a slow transfer: pauses (each shorter than the idle timeout) between
+			// most chunks, few other perturbations
+			pw = []int{50, 1, 1, 1, 1, 1, 1, 1, 1, 1, 1, 45, 1, 1}
+		}
+		p := src.Weighted(pw)
 		w.sig = append(w.sig, uint64(i)<<8|uint64(p))
 		switch p {
 		case 1: // the chunk is lost
@@ -286,7 +292,20 @@ func (w *world) runSampled() string {
 				}
 			}
 		case 11:
-			if t := src.Range(1, 8); w.smallUsed+t <= smallTickBudget {
+			// a pause that leaves every live stream silent for less than the idle
+			// timeout: all of them must survive, however long the run has lasted
+			hi := w.timeout / 3
+			if hi < 8 {
+				hi = 8
+			}
+			t := src.Range(1, hi)
+			fits := w.smallUsed+t <= 40*smallTickBudget
+			for _, st := range w.streams {
+				if st.idle+t >= w.timeout-1 {
+					fits = false
+				}
+			}
+			if fits {
 				w.smallUsed += t
 				w.ctx.Count("fault.short_silence", 1)
 				w.tick(t, false)
